@@ -341,9 +341,19 @@ func genOptCase(r *rng) optCase {
 		return optCase{argsA: append([]string{"--refgroup", g}, out...), argsB: append([]string{"--include", "@" + g}, out...), expect: "equal"}
 	case 5: // gitconfig has the effect of the option when no option of the family is given
 		v := []string{"0", "1", "30", "2.5", "12", "-1", "1e9"}[r.n(7)]
+		if r.coin(1, 3) {
+			// the key defined twice (two scopes): git's answer — `git config --get` — is the LAST one
+			// (seeded C14y looked the key up in the listing and took the first)
+			w := []string{"30", "0", "7", "abc"}[r.n(4)]
+			return optCase{cfgA: []string{"sizer.threshold=" + w, "sizer.threshold=" + v}, argsA: out, argsB: append([]string{"--threshold=" + v}, out...), expect: "equal"}
+		}
 		return optCase{cfgA: []string{"sizer.threshold=" + v}, argsA: out, argsB: append([]string{"--threshold=" + v}, out...), expect: "equal"}
 	case 6:
 		v := []string{"none", "hash", "full", "sha1", "sha-1"}[r.n(5)]
+		if r.coin(1, 3) {
+			w := []string{"none", "full", "hash", "bogus"}[r.n(4)]
+			return optCase{cfgA: []string{"sizer.names=" + w, "sizer.names=" + v}, argsA: out, argsB: append([]string{"--names=" + v}, out...), expect: "equal"}
+		}
 		return optCase{cfgA: []string{"sizer.names=" + v}, argsA: out, argsB: append([]string{"--names=" + v}, out...), expect: "equal"}
 	case 7:
 		v := []string{"1", "2"}[r.n(2)]
@@ -628,6 +638,23 @@ func init() {
 					style = "full"
 				}
 			}
+			if r.n(8) == 0 {
+				// several ROOT arguments naming the same commit: which of them names the cited objects must
+				// not depend on timing (seeded C17y resolved the arguments concurrently)
+				cs := indicesOf(objs, 'c')
+				if len(cs) > 0 {
+					c := cs[r.n(len(cs))]
+					k := 2 + r.n(3)
+					args, roots = nil, nil
+					for j := 0; j < k; j++ {
+						nm := fmt.Sprintf("refs/heads/same-%c", 'a'+j)
+						refs = append(refs, fmt.Sprintf("%s=%d", nm, c))
+						args = append(args, nm)
+						roots = append(roots, c)
+					}
+					style = "full"
+				}
+			}
 			if r.n(12) == 0 {
 				objs, times, refs = bigTreeRepo(r)
 				objs = realSizes(objs, times)
@@ -676,6 +703,13 @@ func init() {
 			for k := 0; k < 3 && same; k++ { // further runs: randomised iteration orders show up only sometimes
 				ok, _, ck := runCmd(w, envWith(gitEnv(), "GOMAXPROCS="+strconv.Itoa(2+k)), nil, bin, append([]string{"--no-progress"}, sargs...)...)
 				same = same && bytes.Equal(o1, ok) && ck == c1
+			}
+			// progress reporting must not change stdout even when stderr cannot be written to (a full disk):
+			// the same run with --progress and stderr on /dev/full
+			if _, err := os.Stat("/dev/full"); err == nil && same && os.Getenv("VERIF_RACE") != "1" {
+				sh := append([]string{"-c", `exec "$0" "$@" 2>/dev/full`, bin, "--progress"}, sargs...)
+				of, _, cf := runCmd(w, envWith(gitEnv(), "GOMAXPROCS=4"), nil, "/bin/sh", sh...)
+				same = bytes.Equal(o1, of) && cf == c1
 			}
 			after := snapshotDir(w)
 			race := bytes.Contains(e1, []byte("DATA RACE")) || bytes.Contains(e2, []byte("DATA RACE"))
